@@ -168,6 +168,23 @@ def worker_loop(
                 except Exception as e:
                     # Log any error during processing without crashing the loop
                     worker_logger.exception(f"Worker failed job {job_id}: {e}")
+                    # Report the failure on the status channel so the master can
+                    # complete the job's Future exceptionally instead of leaving
+                    # the caller waiting forever.
+                    try:
+                        failure_ctx = ContextType()
+                        failure_ctx.set_value("job_id", job_id)
+                        transport.publish(
+                            f"jobs.{job_id}.status",
+                            data=None,
+                            context=failure_ctx,
+                            metadata={"job_id": job_id, "error": e},
+                            require_ack=False,
+                        )
+                    except Exception:  # pragma: no cover - defensive
+                        worker_logger.exception(
+                            f"Worker could not report failure of job {job_id}"
+                        )
 
             # Close this subscription before the next polling iteration
             sub.close()
